@@ -324,4 +324,47 @@ theorem flow_runBidirectionalForward : Gen.Flow.runBidirectionalForward = [
   "closeAll()"
 ] := rfl
 
+theorem flow_Conn_IsHealthy : Gen.Flow.Conn_IsHealthy = [
+  "c.mu.Lock()",
+  "defer c.mu.Unlock()",
+  "if c.broken",
+  "return false",
+  "end",
+  "if c.tcpConn == nil",
+  "return false",
+  "end",
+  "maxIdleTime := 5 * time.Minute",
+  "if time.Since(c.lastUsed) > maxIdleTime",
+  "return false",
+  "end",
+  "oldDeadline := time.Time{}",
+  "c.tcpConn.SetReadDeadline(time.Now().Add(1 * time.Millisecond))",
+  "defer c.tcpConn.SetReadDeadline(oldDeadline)",
+  "one := make([]byte, 1)",
+  "_, err := c.tcpConn.Read(one)",
+  "if err != nil",
+  "if netErr, ok := err.(net.Error); ok && netErr.Timeout()",
+  "return true",
+  "end",
+  "return false",
+  "end",
+  "return false"
+] := rfl
+
+theorem flow_Conn_Release : Gen.Flow.Conn_Release = [
+  "c.mu.Lock()",
+  "if !c.inUse",
+  "c.mu.Unlock()",
+  "return",
+  "end",
+  "c.inUse = false",
+  "c.lastUsed = time.Now()",
+  "c.mu.Unlock()",
+  "if c.pool != nil && !c.broken",
+  "c.pool.Put(c)",
+  "else",
+  "c.Close()",
+  "end"
+] := rfl
+
 end Tunnox.C10.Ties
